@@ -174,7 +174,11 @@ func (p *proc) check(decls []VarDecl, pc, extra, wantVals []string, timeoutMs in
 			p.Errors = append(p.Errors, res)
 			nxt := p.readLine()
 			res = "unknown:" + res + " / " + nxt
-			break
+			// the error may belong to the push or to an assertion, so the solver's frame stack can
+			// no longer be trusted to mirror ours: this process answers nothing more (its owner
+			// starts a fresh one for the next query)
+			p.dead = true
+			return res, nil
 		}
 		res = p.readLine()
 	}
@@ -249,6 +253,7 @@ type Solver struct {
 	Dur       time.Duration
 	PrecDur   time.Duration
 	TimeoutMs int
+	retired   []string
 }
 
 var solverBin = "z3"
@@ -264,6 +269,7 @@ func NewSolver(timeoutMs int) *Solver {
 // abstract returns the abstraction solver, restarted if it died (watchdog).
 func (s *Solver) abstract() *proc {
 	if s.abs.dead {
+		s.retire(s.abs)
 		s.abs.close()
 		s.abs = newProc("z3", true, s.TimeoutMs)
 	}
@@ -272,6 +278,7 @@ func (s *Solver) abstract() *proc {
 
 func (s *Solver) precise() *proc {
 	if s.prec != nil && s.prec.dead {
+		s.retire(s.prec)
 		s.prec.close()
 		s.prec = nil
 	}
@@ -288,8 +295,30 @@ func (s *Solver) Close() {
 	}
 }
 
+// retire keeps the error lines of a process that is being replaced. A "canceled" error is the
+// solver's time limit striking outside check-sat (seen on push under load): it is a time-out of
+// that one query, which is answered "unknown" and accounted for as such, not an encoding error.
+func (s *Solver) retire(p *proc) {
+	for _, e := range p.Errors {
+		if !strings.Contains(e, "canceled") {
+			s.retired = append(s.retired, e)
+		}
+	}
+	p.Errors = nil
+}
+
+// canceled: the query was not answered because the solver's time limit struck outside check-sat.
+func canceled(r string) bool {
+	return strings.HasPrefix(r, "unknown:(error") && strings.Contains(r, "canceled")
+}
+
 func (s *Solver) Errors() []string {
-	e := append([]string(nil), s.abs.Errors...)
+	s.retire(s.abs)
+	if s.prec != nil {
+		s.retire(s.prec)
+	}
+	e := append([]string(nil), s.retired...)
+	e = append(e, s.abs.Errors...)
 	if s.prec != nil {
 		e = append(e, s.prec.Errors...)
 	}
@@ -339,6 +368,9 @@ func (s *Solver) Check(decls []VarDecl, pc []string, extra []string, wantVals []
 	defer func() { s.Dur += time.Since(t0) }()
 	s.Queries++
 	r, _ := s.abstract().check(decls, pc, extra, nil, s.TimeoutMs)
+	if canceled(r) {
+		r, _ = s.abstract().check(decls, pc, extra, nil, s.TimeoutMs) // once more, on a fresh process
+	}
 	if r == "unsat" {
 		s.count(r)
 		return r, nil
@@ -346,6 +378,9 @@ func (s *Solver) Check(decls []VarDecl, pc []string, extra []string, wantVals []
 	t1 := time.Now()
 	s.PrecQ++
 	r, vals := s.precise().check(decls, pc, extra, wantVals, s.TimeoutMs)
+	if canceled(r) {
+		r, vals = s.precise().check(decls, pc, extra, wantVals, s.TimeoutMs)
+	}
 	s.PrecDur += time.Since(t1)
 	s.count(r)
 	return r, vals
